@@ -318,9 +318,14 @@ def positive_set_attr(cls, attr):
     defs = [n for n in ast.walk(cls) if isinstance(n, ast.Assign) and any(src(t).replace(' ', '') == 'self.%s' % attr for t in n.targets)]
     others = [n for n in ast.walk(cls) if isinstance(n, ast.Call) and isinstance(n.func, ast.Attribute) and src(n.func.value).replace(' ', '') == 'self.%s' % attr
               and n.func.attr in MUTATORS + ('add', 'discard')]
+    # (`x = A if c else set()` reaches this rule in statement form: the empty alternative is not a second source of names)
+    defs = [d for d in defs if src(d.value).replace(' ', '') not in ('set()', '[]', '()', 'frozenset()')]
     if len(defs) != 1 or others:
         return False
     v = defs[0].value
+    if isinstance(v, ast.IfExp) and src(v.orelse).replace(' ', '') in ('set()', '[]', '()', 'frozenset()') and \
+            util.canon_test(v.test).replace(' ', '') in ('priorisnotNone', 'self.priorisnotNone'):  # canon_test keeps the blank inside 
+        v = v.body      # no prior dictionary: no flagged names
     if isinstance(v, ast.Call) and src(v.func) in ('set', 'frozenset', 'list', 'tuple') and len(v.args) == 1:
         v = v.args[0]
     if not isinstance(v, (ast.SetComp, ast.ListComp, ast.GeneratorExp)) or len(v.generators) != 1:
